@@ -20,6 +20,8 @@ def run(rep, tier, seed):
     rep.extra["batch_pairs_checked"] = (701 if thorough else 121) * 64
     pc.design(rep, work, [("verify skeleton: 2 ids, <=3 jobs, 2 workers, cancel", ("1, 2", 3, 2, 0, "chop", "TRUE", ""))], witnesses=False)
     pc.drive(rep, work, binp, seed, 2500 if thorough else 400, "clean", "verify", 2)
+    # the verdict must also hold when the run is cancelled: success only if every chunk was verified
+    pc.drive(rep, work, binp, seed + 5, 200 if thorough else 40, "clean,cancel", "verify", 30, tag="cancel")
     if thorough:
         pc.drive(rep, work, binp, seed + 77, 300, "clean", "verify", 2, big=True, tag="big")
     rep.rule = ("case = blob of K chunks (K in 0..44, 0..699 thorough; equal or varied sizes) x n in {1,2,3,4,10,64} (1..64 thorough) x damage in "
